@@ -19,9 +19,10 @@ U63, U64, U3 = "é" * 31 + "a", "é" * 32, "€" * 21  # 63 / 64 / 63 bytes in 3
 NAMES_FULL = ["local.", "_a._tcp.local.", "_A._tcp.local.", "x._a._tcp.local.", "y.x._a._tcp.local.",
               "Dotted.Inst._a._tcp.local.", "ünï._a._tcp.local.", "h.local.", "other.example.",
               f"{L62}.local.", f"{L63}.local.", f"{L64}.local.", f"{L65}.local.", f"{U63}.local.", f"{U64}.local.",
-              f"{U3}._a._tcp.local.", f"x.{L63}.local."]
+              f"{U3}._a._tcp.local.", f"x.{L63}.local.", "drucker.büro.local.", "scanner.büro.local.",
+              "Etage 1.Café €._a._tcp.local."]
 NAMES_RED = ["local.", "_a._tcp.local.", "_A._tcp.local.", "x._a._tcp.local.", "y.x._a._tcp.local.", "h.local.",
-             f"{L63}.local."]
+             f"{L63}.local.", "drucker.büro.local.", "scanner.büro.local."]
 IP4, IP6 = b"\x0a\x00\x00\x01", bytes.fromhex("fe80000000000000000000000000abcd")
 
 
@@ -51,7 +52,7 @@ def specials() -> List[tuple]:
 
 def entries_reduced() -> List[tuple]:
     out: List[tuple] = []
-    names = ["_a._tcp.local.", "x._a._tcp.local.", "y.x._a._tcp.local.", "h.local.", f"{L63}.local."]
+    names = ["_a._tcp.local.", "x._a._tcp.local.", "y.x._a._tcp.local.", "h.local.", f"{L63}.local.", "a.bü.local.", "b.bü.local."]
     for n in names:
         out += [("Q", n, 12, FL), ("A", n, FL, 120, IP4)]
     for o in names[:4]:
